@@ -176,3 +176,35 @@ func vpH_C07_T_validation() {
 	vpAssert("C07.no-spurious-edge", s.e.IsLeader() && s.cb.demotes == 0)
 	vpAssert("C07.token-stable", s.e.Token() == tok)
 }
+
+// vpH_C07_T_stale_read: fault-free, but the answer to a read takes 150ms (well below H/2): the follower's
+// periodic check reads the old owner's record, the owner leaves at a symbolic instant, the follower wins the
+// vacancy, and only then the answer to that read is processed. The new leader must stay leader.
+func vpH_C07_T_stale_read() {
+	H := time.Second
+	vpSetOpt("rand-fixed", 1)
+	s := vpFollowingInstance(H, nil)
+	s.kv.getRespLat = 150 * time.Millisecond
+	go func() {
+		vpDelay("vacate", 450*time.Millisecond, 700*time.Millisecond)
+		if s.st.live() && s.st.writer == "env:other" {
+			s.st.write("env:other", "delete", nil, true, 0)
+			vpEvent("vacated")
+		}
+	}()
+	time.Sleep(1500 * time.Millisecond)
+	vpQuiesce()
+	if s.cb.promotes == 0 {
+		vpEndPath("not-elected-yet")
+	}
+	tok := s.cb.lastTok
+	time.Sleep(2*H + H/2)
+	vpQuiesce()
+	vpCover("C07.stale-read")
+	vpAssert("C07.no-spurious-edge", s.edges == 0 && s.e.IsLeader())
+	vpAssert("C07.no-demote-callback", s.cb.demotes == 0)
+	vpAssert("C07.token-stable", s.e.Token() == tok && s.cb.promotes == 1)
+	vpAssert("C02.claim-backed", vpClaimBacked(s.e, s.st, "a"))
+	vpAssert("C18.leader-snapshot", s.e.Status().LeaderID == "a" && s.e.Status().Token == tok)
+	vpAuditLog(s.st, "a", false, 0, false)
+}
